@@ -20,6 +20,11 @@ CLAIMS = {
    "(replay_obs/final_ok: resources free when handed out, exact count, metadata truthful, everything returned; proved to imply conservation and disjointness) and, on the serial backend, "
    "matches the mechanism model's exact FIFO prediction.",
    note="asyncio scheduling and thread pools are observed, not modelled; the worker bound itself is not part of the property (each submit installs a fresh worker semaphore, F21)."),
+ "C03": dict(cat="proof", text="Coq theorems over a counter-machine model of search()/_search() on top of the evaluator counters, for ALL histories of earlier calls (budget, strict, timeout; any gather sizes; any clock), "
+   "any number of workers: a plain call makes n <= new < n + W evaluations, a strict call exactly n, every call leaves a clean state (history independence), the returned table holds all evaluations so far; "
+   "the pinned code is refuted by three witnesses (F05). Tie: sequences of <= 4 real search() calls (RandomSearch / CBO-DUMMY, serial and thread backends) with a counting run-function: the extracted oracle ok_history decides the statement, "
+   "and the model's prediction of the number of new evaluations from the observed gather sizes must equal the observed number.",
+   note="gather('BATCH',1) returning between 1 and in-flight jobs is assumed here (proved/checked by C01); wall-clock makes timed calls uncounted (only the calls after them are)."),
  "C11": dict(cat="proof", text="Coq theorems (all point sets, all visiting orders, no bound): the sweep model selects exactly one copy of every minimal vector "
    "(sound, complete, unique), the result does not depend on the visiting order, the peeled fronts partition the input, ranked(req) has min(n,req) points taken front by front. "
    "Tied to the code by functional correspondence (value sets) and by the extracted Coq oracles ok_nds/ok_ranked (reflection lemmas proved) applied to the implementation's "
